@@ -94,7 +94,7 @@ func c14Cfg() *DeclCfg {
 		Kinds: []string{"bool", "int", "int16", "uint", "uint8", "float64", "string", "string", "duration", "[]int", "[]string", "map[string]int", "map[string]string",
 			"map[int]string", "*int", "*string", "um", "func(string)", "func()", "[]bool", "vv", "level", "ulist"},
 		MinOpts: 1, MaxOpts: 4, MaxGroups: 2, MaxSub: 1, MaxCmds: 2, MaxDepth: 2, Exec: true,
-		Hidden: true, NoIni: true, IniName: true, Namespaces: true, Choices: true, Base: false, CapCmds: true, DupFields: true, MultiByte: true,
+		Hidden: true, NoIni: true, IniName: true, Namespaces: true, Choices: true, Base: false, CapCmds: true, DupFields: true, MultiByte: true, DottedCmds: true,
 		ParserOpts: []uint{0, optHelpFlag, optIgnoreUnknown, optIgnoreUnknown | optHelpFlag, optHelpFlag | optPassDoubleDash | optPrintErrors},
 	}
 }
@@ -435,6 +435,9 @@ func genC14Fault(r *Rng, d *DeclSpec, p *C14Payload) *C14Fault {
 		f.Text = r.Pick([]string{"k = \"abc", "k = \"a\\qb\"", "k = \"abc\" tail", "k = \"", "k = \"a\"b\"", "k=\"\\", "k = \"\\x\"", "k = \"abc\\\""})
 	case "unknown-option":
 		f.Text = r.Pick([]string{"nosuchkeyzz = 1", "NoSuchKeyZZ=", " zz9 = x y"})
+		if r.Fork("adjacent").Chance(1, 2) {
+			f.More = "alsonosuchzz = 2" // unknown options come in runs (the settings of another version of the program)
+		}
 	case "foreign-key":
 		// a key that names an option of ANOTHER section (addressed earlier in the
 		// file) is unknown in the section where it now appears
